@@ -402,3 +402,83 @@ def check_C11(tier, seed):
     rows = props.run_generic(ctx, "c11", allg, "s", cmp_term, with_pest=False)
     ctx.notes["wellfounded_grammars_run"] = len(allg)
     return ctx.finish(rule="PegValidate.tla (pest's validate_ast transcribed: non-failing / non-progressing repetition bodies, unreachable alternatives, WHITESPACE/COMMENT, left recursion) gives a verdict for every grammar of family ill (hand-written ill-formed grammars and near-misses + seeded mutations of random grammars); pest_meta is its witness; pest_typed_generator::derive_typed_parser is called as a library under catch_unwind with and without pest_optimizer and must panic exactly on the rejected ones (evaluations; non-trivial = rejected grammars). Accepted well-founded grammars are compiled (harness build) and TLC checks <>(pc = done) under weak fairness on every (rule, input) (M10) while the real parser runs each under a watchdog.")
+
+
+def check_C19(tier, seed):
+    import props, rawfam
+    ctx = Ctx("C19", tier, seed)
+    cs, gram, src = rawfam.build(tier)
+    L = 5 if tier == "quick" else 7
+    plain = all_strings(cps("ab c"), 4 if tier == "quick" else 5) + [cps(x) for x in ["aaaaa", "a a a a", "a a a a a", "aaaaaa", "bcbcbc", "a bc a", "aaaa ", "a  a", "abcabc", "bc bc bc bc bc"]]
+    stacky = []
+    for npush in range(0, 4):
+        for sep in ("", " "):
+            pre = sep.join(["a"] * npush) + sep + ";"
+            for tail in all_strings(cps("a "), 4 if tier == "quick" else 6):
+                stacky.append(cps(pre) + tail)
+                stacky.append(cps(pre + sep) + tail)
+    # one corpus entry per input class, sharing the rules
+    ga = dict(gram, id="rawa", entries=[c["id"] for c in cs if not c["stacky"]], inputs=plain, ctxs=[[[], []]])
+    gb = dict(gram, id="rawb", entries=[c["id"] for c in cs if c["stacky"]], inputs=[list(x) for x in {tuple(s) for s in stacky}], ctxs=[[[], []]])
+    d = peg.tmpdir("c19")
+    path = os.path.join(d, "corpus.json")
+    json.dump({"grammars": [ga, gb]}, open(path, "w"))
+    recs, st = peg.run_tlc(path, "c19", emit="dv", ast="src")
+    if not st["ok"]:
+        raise ToolError("TLC failed on the raw family:\n" + st.get("tail", "")[-3000:])
+    ctx.add_stats(st)
+    # harness crate
+    famd = os.path.join(HARNESS, "fam", "raw_0")
+    os.makedirs(os.path.join(famd, "src"), exist_ok=True)
+    famgen.write_if_changed(os.path.join(famd, "Cargo.toml"), '[package]\nname = "fam_raw_0"\nversion = "0.0.0"\nedition = "2021"\n\n[dependencies]\nhcommon = { path = "../../hcommon" }\npest_typed = { path = "/repo/main" }\nserde_json = "1"\n')
+    famgen.write_if_changed(os.path.join(famd, "src", "main.rs"), src)
+    famgen.sync_workspace()
+    p, bins = build_bins(["fam_raw_0"])
+    if p.returncode != 0:
+        raise ToolError("raw harness build failed:\n" + (p.stdout or "")[-4000:])
+    byid = {"rawa": ga, "rawb": gb}
+    cell = {c["id"]: c for c in cs}
+    jobs = []
+    for r in recs:
+        if r["pc"] != "done":
+            continue
+        jobs.append({"idx": len(jobs), "g": r["g"], "rule": r["rule"], "inp": byid[r["g"]]["inputs"][r["ii"] - 1], "pre": [], "post": [], "modes": "", "_rec": r})
+    res = peg.run_runner(bins["fam_raw_0"], [{k: v for k, v in j.items() if k != "_rec"} for j in jobs])
+    known = [k for k in props.load_known() if k["property"] == "C19" and k["status"] == "known"]
+    for j in jobs:
+        rec, o, c = j["_rec"], res.get(j["idx"], {"missing": True}), cell[j["rule"]]
+        ctx.cov["evaluations"] += 1
+        if rec["ok"] and rec["end"] > 0:
+            ctx.cov["distinct_nontrivial"] += 1
+        d = []
+        if "parse" not in o or "panic" in o.get("parse", {}) or "panic" in o.get("check", {}):
+            d.append(("raw combinator", "a result", o))
+        else:
+            pa, ch = o["parse"], o["check"]
+            # element count of the cell: the model's top-level rep record (last "rep"/"opt" at depth 1 for stack cells, first otherwise)
+            exp_n = None
+            if rec["ok"] and c["kind"] in ("minmax", "min", "array", "atomicrepeat"):
+                reps = [e for e in rec["dv"] if e["k"] == "rep" and e["d"] == 1]
+                exp_n = (reps[-1] if c["stacky"] else reps[0])["n"] if reps else None
+            if pa["ok"] != rec["ok"]:
+                d.append(("parse.ok", rec["ok"], pa["ok"]))
+            elif rec["ok"]:
+                if pa["end"] != rec["end"]:
+                    d.append(("parse.end", rec["end"], pa["end"]))
+                elif pa["stk"] != rec["stk"]:
+                    d.append(("parse.stack", rec["stk"], pa["stk"]))
+                elif exp_n is not None and pa["n"] != exp_n:
+                    d.append(("element count", exp_n, pa["n"]))
+                elif exp_n is not None and c["kind"] == "minmax" and not (c["mn"] <= pa["n"] <= c["mx"]):
+                    d.append(("element count within MIN..MAX", [c["mn"], c["mx"]], pa["n"]))
+            if not d and (ch["ok"] != pa["ok"] or (pa["ok"] and (ch["end"] != pa["end"] or ch["stk"] != pa["stk"]))):
+                d.append(("check vs parse", pa, ch))
+        if d:
+            f, e, ob = d[0]
+            ctx.violation("%s: cell %s on %r: expected %s observed %s" % (f, {k: c[k] for k in ("kind", "ek", "skip", "mn", "mx")}, uncps(j["inp"]), json.dumps(e)[:120], json.dumps(ob)[:160]),
+                          {"kind": "raw", "cell": c, "input": uncps(j["inp"]), "input_cps": j["inp"], "field": f, "expected": e, "observed": ob, "model": {k: rec[k] for k in ("ok", "end", "stk")}})
+        if len(ctx.cov["samples"]) < 3 and rec["ok"] and rec["end"] > 2:
+            ctx.cov["samples"].append({"cell": c, "input": uncps(j["inp"]), "model": {"ok": rec["ok"], "end": rec["end"], "stk": rec["stk"]}})
+    ctx.cov["traces_validated_against_impl"] += len(jobs)
+    ctx.notes["cells"] = len(cs)
+    return ctx.finish(rule="cells = RepeatMinMax / RepeatMin over MIN, MAX in 0..4 (all pairs, also MIN > MAX) x SKIP in {0,1} x element kinds {string, choice, nested repetition, POP, DROP, PUSH}, plus [T;N], (T1,T2), Option<T>, SkipChar<N>, AtomicRepeat<T>; each instantiated directly from the runtime crate next to the model expression it denotes (rep(e,MIN,MAX) in a normal / atomic rule with WHITESPACE = \" \"); stack cells are preceded by PUSH(\"a\"){,3} ~ \";\". TLC runs the machine (M11: never more than MAX iterations; M1) on all inputs up to length %d over {a, b, c, space}; verdict, offset, final stack, element count (from the model's derivation record) and parse = check are compared" % L)
